@@ -25,9 +25,9 @@ PROFILE = {
     'weights': {'app': 14, 'idg': 5, 'rmidg': 2, 'bl': 3, 'down': 3,
                 'rmsrv': 3, 'orphanbl': 3, 'orphanrm': 3, 'orphanidg': 3,
                 'clone': 5, 'fillclone2': 2, 'clone2': 2, 'prio': 2,
-                'capsqueeze': 4},
+                'capsqueeze': 4, 'renew': 2, 'renewold': 3, 'adv': 2},
     'force': ['idg', 'orphanbl', 'orphanrm', 'orphanidg', 'clone', 'rmsrv',
-              'fillclone2', 'capsqueeze'],
+              'fillclone2', 'capsqueeze', 'renewold'],
     'rich_allocs': True,
     'groups': True,
     'group_bias': True,
